@@ -68,6 +68,7 @@ def _path(clf, X, y=None, alpha_multiplier=1.05, min_features=2, keep_threshold=
 
     # Start by fitting the model using all features and without regularisation
     alpha = clf.alpha
+    initial_alpha = clf.alpha
     clf.set_params(alpha=0)
 
     if clf.verbose:
@@ -164,5 +165,8 @@ def _path(clf, X, y=None, alpha_multiplier=1.05, min_features=2, keep_threshold=
             if clf.verbose:
                 print(f"This is definitely the best score so far within threshold: {iteration_gemini_score}, "
                       f"{best_gemini_score}")
+
+    # The path must not leave the hyperparameter of the model modified
+    clf.set_params(alpha=initial_alpha)
 
     return best_weights, geminis, group_lasso_penalties, alphas, n_features
